@@ -7,6 +7,7 @@ import subprocess
 import time
 
 import orchestrate as o
+from orchestrate import REPO_DIR
 
 
 # ------------------------------------------------------------------ C20 / C17
@@ -100,6 +101,8 @@ def plan_c07(ctx):
 
 def miri_mode(w):
     """workload seed -> workload kind: now = clock-driven calls on zones whose local dates differ"""
+    if w % 3 == 0:
+        return "rule"
     return "now" if w % 2 == 0 else ("heavy" if w % 4 == 1 else "light")
 
 
@@ -125,7 +128,7 @@ def miri_runs(ctx, n_seeds, workloads, rates, threads=3, calls=24):
             w, s, r = todo.pop(0)
             e = o.env()
             e["MIRIFLAGS"] = f"-Zmiri-seed={s} -Zmiri-preemption-rate={r}"
-            p = subprocess.Popen(["cargo", "+nightly", "miri", "run", "--offline", "--target-dir", os.path.join(ctx.verif, "target", "miri"), "--", str(w), str(threads), str(calls if miri_mode(w) != "now" else calls + 16), miri_mode(w)], cwd=cwd, env=e, stdout=subprocess.PIPE, stderr=subprocess.STDOUT, text=True)
+            p = subprocess.Popen(["cargo", "+nightly", "miri", "run", "--offline", "--target-dir", os.path.join(ctx.verif, "target", "miri"), "--", str(w), str(threads), str(calls if miri_mode(w) in ("light", "heavy") else calls + 16), miri_mode(w)], cwd=cwd, env=e, stdout=subprocess.PIPE, stderr=subprocess.STDOUT, text=True)
             running.append((p, w, s, r))
         time.sleep(0.05)
         for item in list(running):
@@ -141,8 +144,8 @@ def miri_runs(ctx, n_seeds, workloads, rates, threads=3, calls=24):
         os.makedirs(ctx.replays, exist_ok=True)
         path = os.path.join(ctx.replays, f"C15-miri-w{w}-s{s}-r{r}.miri.txt")
         with open(path, "w") as f:
-            f.write(f"# property C15\n# oracle C15.miri\n# replay: cd /verif/tzsim-miri && MIRIFLAGS='-Zmiri-seed={s} -Zmiri-preemption-rate={r}' cargo +nightly miri run --offline --target-dir /verif/target/miri -- {w} {threads} {calls if miri_mode(w) != 'now' else calls + 16} {miri_mode(w)}\n")
-            f.write(f"workload {w}\nmiri_seed {s}\nrate {r}\nthreads {threads}\ncalls {calls if miri_mode(w) != 'now' else calls + 16}\nmode {miri_mode(w)}\n")
+            f.write(f"# property C15\n# oracle C15.miri\n# replay: cd /verif/tzsim-miri && MIRIFLAGS='-Zmiri-seed={s} -Zmiri-preemption-rate={r}' cargo +nightly miri run --offline --target-dir /verif/target/miri -- {w} {threads} {calls if miri_mode(w) in ('light', 'heavy') else calls + 16} {miri_mode(w)}\n")
+            f.write(f"workload {w}\nmiri_seed {s}\nrate {r}\nthreads {threads}\ncalls {calls if miri_mode(w) in ('light', 'heavy') else calls + 16}\nmode {miri_mode(w)}\n")
             f.write("# ---- output of the failing execution\n")
             for line in out.splitlines()[-60:]:
                 f.write("# " + line + "\n")
@@ -186,7 +189,7 @@ def plan_c15(ctx):
     if thorough:
         miri = miri_runs(ctx, 128, [1, 2, 3, 4, 5, 6], ["0.05", "0.3"])
     else:
-        miri = miri_runs(ctx, 16, [1, 2], ["0.3"])
+        miri = miri_runs(ctx, 12, [1, 2, 3], ["0.3"])
     o.required_probes(ctx, agg, ["zone_shared_between_threads", "switch_inside_resolution", "cold_child_evaluations", "env_flip", "clock_jump_backward", "clock_before_epoch", "torn_upgrade"])
     rule = ("tier A: one evaluation = one scenario with 2-4 client threads + optional installer + environment/clock actor under the baton scheduler (yield points: every operation boundary and inside the read seam); "
             "oracles: every recorded operation is executed again ALONE (after all threads have finished, in reverse order, on a fresh private copy rebuilt from the bytes it was decoded from, with reads and clock replayed) and must return the identical canonical result and open the identical paths; "
@@ -211,7 +214,7 @@ def plan_c19(ctx):
     for guard in ("off", "on"):
         for name, flags in FEATURE_SETS:
             argv = ["cargo", "build", "--offline", "--no-default-features"] + flags + ["--target-dir", os.path.join(ctx.verif, "target", f"repo-{guard}")]
-            rc, out = o.sh(argv, cwd="/repo", extra_env={"RUSTFLAGS": "--cfg tz_rs_verif"} if guard == "on" else None)
+            rc, out = o.sh(argv, cwd=REPO_DIR, extra_env={"RUSTFLAGS": "--cfg tz_rs_verif"} if guard == "on" else None)
             builds[f"tz-rs[{name}] guard {guard}"] = "builds" if rc == 0 else "FAILS"
             if rc != 0:
                 if name == "std" and guard == "off":
@@ -350,7 +353,7 @@ def replay_special(verif, path):
     if path.endswith(".build.txt"):
         name, guard = kv.get("features", "core"), kv.get("guard", "off")
         flags = dict(FEATURE_SETS)[name]
-        rc, out = o.sh(["cargo", "build", "--offline", "--no-default-features"] + flags + ["--target-dir", os.path.join(verif, "target", f"repo-{guard}")], cwd="/repo", extra_env={"RUSTFLAGS": "--cfg tz_rs_verif"} if guard == "on" else None)
+        rc, out = o.sh(["cargo", "build", "--offline", "--no-default-features"] + flags + ["--target-dir", os.path.join(verif, "target", f"repo-{guard}")], cwd=REPO_DIR, extra_env={"RUSTFLAGS": "--cfg tz_rs_verif"} if guard == "on" else None)
         print(out[-2000:])
         if rc != 0:
             print(f"VIOLATION property=C19 replay={path}")
